@@ -56,7 +56,7 @@ ASBUILT = dict(stalectx=True, memolabel=True, freehit=True, acccap=0)     # M as
 
 
 def machine_eligible(g):
-    return "lr" not in g.tags
+    return "lr" not in g.tags or bool(getattr(g, "lrflags", None))
 
 
 def design_level(run, groups, inputs, options, ois, max_groups, asbuilt=None, liveness=False, inputs_idx=None, label="design_model", subset=None):
@@ -564,13 +564,19 @@ def check_C08(tier, seed, replay=None):
     for _ in range(200 if tier == "quick" else 600):
         inputs.append([rng.choice([F.NN, F.NN, F.PLUS, F.MINUS, F.STAR_, 94, F.LP, F.RP, 120]) for _ in range(rng.randint(maxlen + 1, maxlen + 4))])
     inputs += [[F.NN, op, F.NN, 120] for op in (F.PLUS, F.MINUS, F.STAR_)] + [[F.NN, F.PLUS, F.NN, F.PLUS, F.NN, 120], [F.NN, F.PLUS, F.NN, F.STAR_, F.NN, 120]]
-    options = [opt(), opt(memo=True)]
+    options = [opt(), opt(memo=True), opt(debug=True), opt(debug=True, memo=True)]
     nin = len(inputs)
-    div, tot = run.execute(groups, inputs, options, lambda g: [(ii, oi) for ii in range(nin) for oi in (0, 1)],
+    run.keep_debug = True
+    import findings
+    run.add_witnesses([f["id"] for f in findings.active("C08")], groups, inputs, options)
+    div, tot = run.execute(groups, inputs, options, lambda g: [(ii, oi) for ii in range(nin) for oi in (0, 1)] + ([(ii, 2 + (ii % 2)) for ii in range(0, nin, 9)] if g.gi % 3 == 0 else []),
                            [["-support-left-recursion"], ["-support-left-recursion", "-optimize-parser"]], timeout_ms=8000)
     from rt import pairwise
     d2, npairs = pairwise(run, [(i, i + 1) for i in range(0, len(run.variants), 2)], fields=("status", "ok", "end", "val", "errs", "store"))
     div += d2
+    # design level: the seed-growing machine (parseRuleRecursiveLeader in M) refines the iterative meaning; T2 on the real Debug traces
+    design_level(run, groups, inputs, options, lambda g: [0, 1], 60 if tier == "quick" else 600, inputs_idx=range(0, len(inputs), 4))
+    t2_bind(run, 1500 if tier == "quick" else 10000)
     return std_finish(run, div, tot, "towers (height 1..3, like expr/term/factor) of rules A <- A a1/../A ak/b1/.. with direct and single-cycle indirect recursive alternatives, operands with actions, labels, state blocks, predicates and error-returning blocks; all inputs over {n,+,*,(} up to the bound + longer random ones; Memoize on/off, -optimize-parser on/off; ok, end, value, errors and final store must equal PegRef's iterative meaning, PegRef's events must be a subsequence of the observed ones",
                       extra=dict(pairs_compared=npairs))
 
@@ -1718,7 +1724,7 @@ def check_C18(tier, seed, replay=None):
     run.obs = [r_[0] for r_ in res]
     gp = os.path.join(P.workdir(), "groups.ndjson")
     dump_groups(groups, gp)
-    tcase = dict(inputs=inputs, options=options, lower=[[0, 0]], uclass=[[0]], cmp=dict(store=True, errs=True, ctx=False, norm=False), kf=["-"], strict=[0])
+    tcase = dict(inputs=inputs, options=options, lower=[[0, 0]], uclass=[[0]], cmp=dict(store=True, errs=True, ctx=False, norm=False), kf=["F21", "F2"], strict=[0])
     div, tot = P.validate_t1(gp, tcase, run.obs, shards=12)       # the solo runs are what PegRef says
     ncmp, races = 0, 0
     for v, (solo, conc, serr, cerr, fail, npl) in zip(variants, res):
